@@ -100,7 +100,7 @@ SYielded(o, h, id, dl) ==
       stale == r.id = id /\ r.stale
   IN [o4 EXCEPT !.inc = h :> [id |-> id, dl |-> dl, polls |-> 0, done |-> FALSE,
                              ended |-> IF stale THEN "answered" ELSE "none",
-                             dropped |-> FALSE, answered |-> 0, started |-> FALSE] @@ @,
+                             dropped |-> FALSE, answered |-> 0, started |-> FALSE, exited |-> FALSE] @@ @,
                 !.tracked = IF stale THEN @ ELSE @ \cup {<<id, h>>},
                 !.read = NoRead]
 
@@ -142,6 +142,8 @@ SResponse(o, id, ok, h, throttle) ==
   ELSE Bad(o0, "C08", "response answers no request of this channel", "")
 
 SHandlerStart(o, h) == IF h \in DOMAIN o.inc THEN [o EXCEPT !.inc[h].started = TRUE] ELSE o
+(* the task running InFlightRequest::execute for incarnation h returned *)
+SHandlerExit(o, h) == IF h \in DOMAIN o.inc THEN [o EXCEPT !.inc[h].exited = TRUE] ELSE o
 
 (* the application's handler future for incarnation h is polled / completes *)
 HandlerGate(o, h, what) ==
@@ -161,12 +163,14 @@ SHandlerDropped(o, h) ==
     ELSE o1
 
 (* the application drops a handler task (unstarted or midway): the request is abandoned *)
-SAppDrop(o, h) ==
+SAppDrop0(o, h) ==
   IF o.inc[h].ended = "none" /\ <<o.inc[h].id, h>> \in o.tracked
     THEN [Untrack(EndInc(o, h, "guard"), o.inc[h].id) EXCEPT !.relPend = TRUE, !.guardIds = @ \cup {o.inc[h].id}]
   ELSE IF o.inc[h].ended \in {"cancel", "expired", "answered"}
     THEN [o EXCEPT !.staleG = @ \cup {o.inc[h].id}]     \* its cancellation is still queued for the channel
   ELSE EndInc(o, h, "guard")
+
+SAppDrop(o, h) == SAppDrop0([o EXCEPT !.inc[h].exited = TRUE], h)   \* the task is gone, it makes no further progress
 
 (* the channel is gone (stream ended with an error, ended, or dropped by the application) *)
 RECURSIVE EndAll(_, _)
@@ -264,8 +268,12 @@ AtPt(o) == o.pt.kind # "none"
 AtQ(o) == o.pt.kind = "quiescent"
 Unfinished(o) == {h \in DOMAIN o.inc : ~o.inc[h].done}
 
-Inv_C04(o) == BadOf(o, "C04") = {}
-Inv_C06(o) == BadOf(o, "C06") = {}
+(* a cancelled / expired request makes no further progress: once everything woken has been polled, the task *)
+(* executing it has finished (it does not linger, e.g. waiting to buffer a response nobody wants)           *)
+StoppedAtPoint(o, why) ==
+  (AtPt(o) /\ ~o.panic) => \A h \in DOMAIN o.inc : (o.inc[h].ended = why /\ o.inc[h].polls > 0) => o.inc[h].exited
+Inv_C04(o) == BadOf(o, "C04") = {} /\ StoppedAtPoint(o, "cancel")
+Inv_C06(o) == BadOf(o, "C06") = {} /\ StoppedAtPoint(o, "expired")
 Inv_C08(o) == BadOf(o, "C08") = {}
 Inv_C12(o) == BadOf(o, "C12") = {}
 Inv_C14s(o) == BadOf(o, "C14") = {} /\ ~o.spin
